@@ -6,7 +6,7 @@ import engine
 def run(ctx):
     rnd = ctx.rnd
     ctx.rule = ("random CIDs (1-4 fields, 0-2 checks incl. end-of-data checks, header 0-2, delimited/fixed) x tables of 0-8 rows with accepted and rejected rows "
-                "x {no fault, container fault after the last row} x three modes x {Reader class, cutplace.rows function}; relational checks between the runs of one case; "
+                "x {no fault, malformed tail after the last row (unterminated quote / short record), undecodable bytes in front of any record of a file read through its path} x three modes x {Reader class (in half of the cases all three Reader objects are created before the first is used), cutplace.rows function}; relational checks between the runs of one case; "
                 "distinct = distinct (CID, table, fault); non-trivial = at least one data row")
     n = 700 if ctx.tier == "quick" else 8000
     scns = []
@@ -17,10 +17,20 @@ def run(ctx):
         fault = rnd.random() < 0.2
         if fmt == "fixed" and sum(f["width"] for f in fields) < 2:
             fault = False   # a one character tail would be a complete record of this CID, not a short one
+        fault_at = None
+        if rnd.random() < 0.12:
+            # undecodable bytes in front of record `fault_at` of a file that is read through its path
+            fault, fault_at = "bytes", rnd.randint(0, len(table))
+        # in half of the cases the three Reader objects exist before the first of them is used
+        early = fault != "bytes" and rnd.random() < 0.5
         runs = []
         for api in ("c", "f"):
             for mode in ("yield", "continue", "raise"):
                 runs.append({"kind": "R", "api": api, "mode": mode, "limit": None, "fault": fault, "rows": table, "close": True})
+                if fault_at is not None:
+                    runs[-1]["fault_at"] = fault_at
+                if early and api == "c":
+                    runs[-1]["early"] = True
         scns.append({"format": fmt, "allowed": None, "fields": fields, "checks": engine.gen_checks(rnd, fields), "header": rnd.choice([0, 0, 1, 2]), "runs": runs})
     for scn, mruns, iruns in engine.run_scenarios(scns):
         sc = engine.strip_scn(scn)
@@ -41,6 +51,10 @@ def run(ctx):
         ctx.sample(case)
         # 1. tie: every run equals the model on the observables the statement pins down
         for k, (run, m, i) in enumerate(zip(scn["runs"], mruns, iruns)):
+            if fault == "bytes":
+                # where the decoder trips depends on the buffering of the text layer, which the statement leaves open:
+                # only the relations below (every mode ends with a data-format error) are decided for these cases
+                break
             diffs = engine.compare_run(scn, run, m, i)
             pinned = [d for d in diffs if d in ("ev", "fin", "acc", "rej")]
             if pinned:
